@@ -12,7 +12,8 @@ EXPLANATION = (
     "'diff --git' separator that switches the parser into the state that knows them; (R3) writer and parser use the same constant "
     "for the no-newline marker and for /dev/null; (R4) the hunk writer's loop ends only when both sides are exhausted; (R6) the walk itself: the closest-match helper is "
     "given the unwritten remainders of the two sides, every pair it returns was compared equal on its own parameters (or is the "
-    "full remaining length of both), and '-' / '+' are written in front of lines of the remove / add side. Not decided: "
+    "full remaining length of both), and '-' / '+' are written in front of lines of the remove / add side; (R7) the line numbers of a hunk header survive write-then-parse: the writer's integer "
+    "term composed with the parser's is the identity for every header diff(1) writes, empty sides included. Not decided: "
     "structural equality parse(write(p)) = p (e.g. start lines of empty sides are written as 0) and the byte-level fixed point."
 )
 LEVEL_NOTE = "Undecided: value-level round trip (line numbers of empty sides, exact interleaving chosen by find_closest_match)."
@@ -249,6 +250,7 @@ def run(ck):
                        ok_detail="exit %s implies add_i >= len(add) and remove_i >= len(remove)" % (ex,))
         ck.floor("C12-R4", "normal exits of the hunk writer loop", len(exits), 1)
     r6(ck, hw)
+    r7(ck, hh)
 
 
 def r6(ck, hw):
@@ -350,6 +352,47 @@ def r6(ck, hw):
         else:
             ck.violate(rule, "line marker is one of '+', '-', ' '", "marker byte %r" % mk, hw.where(t2))
     ck.floor(rule, "line writes in the hunk writer", n, 3)
+
+
+def r7(ck, hh):
+    """Header numbers survive write-then-parse: the writer's term composed with the parser's term is the identity."""
+    from .. import seqmodel
+    from . import c01
+    rule = "C12-R7"
+    ph, terms = c01.header_terms(ck, rule)
+    pterm = {side: e for side, e, where in terms}
+    for side in ("remove", "add"):
+        loc = [l for l, nm in hh.names.items() if nm == side + "_line"]
+        if not ck.require(len(loc) == 1, rule, "writer computes the %s line number" % side, "locals named %s_line: %d" % (side, len(loc)), hh.where()):
+            continue
+        we = seqmodel.ite_expr(hh, ("local", loc[0], side + "_line"))
+
+        def is_side_field(x, name, side=side):
+            return isinstance(x, tuple) and x[0] == "field" and x[2] == name and isinstance(x[1], tuple) and x[1][0] == "field" and x[1][2] == side
+        mw = seqmodel.Model([("t", lambda x: is_side_field(x, "target_line"))], seqsyms=[("c", lambda x: is_side_field(x, "content"))], fn=hh)
+        mp = seqmodel.Model([("N", lambda x, s=side: c01.fld(x, s + "_line")), ("c", lambda x, s=side: c01.fld(x, s + "_count"))], fn=ph)
+        wrong = None
+        try:
+            for n in range(0, 5):
+                for c in range(0, 3):
+                    if c > 0 and n == 0:
+                        continue        # '-0,k' with k > 0 is not a header diff writes
+                    if side not in pterm:
+                        raise seqmodel.Unsupported("parser term not found")
+                    t = mp.val(pterm[side], {"N": n, "c": c})
+                    back = mw.val(we, {"t": t, "c": c})
+                    if back != n:
+                        wrong = (n, c, t, back)
+                        break
+                if wrong:
+                    break
+        except seqmodel.Unsupported as ex:
+            ck.violate(rule, "%s line number is a recognised term on both sides" % side, "cannot model the writer's %s (%s)" % (df.show(we, 120), ex), hh.where())
+            continue
+        ck.require(wrong is None and "t" in mw.used, rule, "the %s line number survives write-then-parse" % side,
+                   "a hunk parsed from '%s%d,%d' (position %s) is written back with line number %s" % (
+                       "-" if side == "remove" else "+", wrong[0] if wrong else 0, wrong[1] if wrong else 0, wrong[2] if wrong else "?", wrong[3] if wrong else "?"),
+                   hh.where(), ok_detail="writer: %s" % df.show(we, 140))
 
 
 def closest(text, table):
